@@ -174,6 +174,10 @@ func (b *assignmentBuilder) structFieldAndStructGettersAndFields(lhs bmodel.Node
 		}
 
 		if util.IsSliceType(lhs.ExprType()) && util.IsSliceType(rhs.ExprType()) {
+			if !b.isNameable(util.SliceElement(lhs.ExprType())) {
+				// A copy would spell the element type out, and a plain assignment would share the elements.
+				return
+			}
 			a, err = b.sliceToSlice(lhs, rhs)
 			if a != nil || err != nil {
 				logger.Printf("%v: assignment found: sliceCopy(%v, %v)", methodPosStr, lhsExpr, rhs.AssignExpr())
@@ -414,7 +418,7 @@ func (b *assignmentBuilder) castNode(lhsType types.Type, rhs bmodel.Node) (c bmo
 		return b.castNode(lhsType, bmodel.NewStringer(rhs))
 	}
 
-	if b.opts.Typecast && types.ConvertibleTo(rhs.ExprType(), lhsType) {
+	if b.opts.Typecast && types.ConvertibleTo(rhs.ExprType(), lhsType) && b.isNameable(lhsType) {
 		c, ok = bmodel.NewTypecast(b.pkg.Types.Scope(), b.imports, lhsType, rhs)
 		if !ok {
 			logger.Warnf("%v: typecast for %v is not implemented(yet) for %v",
@@ -440,6 +444,25 @@ func (b *assignmentBuilder) isStructFieldAccessible(structNode bmodel.Node, leaf
 	}
 	return true
 
+}
+
+// isNameable returns true if the given type can be written in the current package,
+// that is, it does not refer to an unexported type of another package.
+func (b *assignmentBuilder) isNameable(t types.Type) bool {
+	switch typ := t.(type) {
+	case *types.Named:
+		obj := typ.Obj()
+		return obj.Pkg() == nil || !b.isExternalPkg(obj.Pkg()) || obj.Exported()
+	case *types.Pointer:
+		return b.isNameable(typ.Elem())
+	case *types.Slice:
+		return b.isNameable(typ.Elem())
+	case *types.Array:
+		return b.isNameable(typ.Elem())
+	case *types.Map:
+		return b.isNameable(typ.Key()) && b.isNameable(typ.Elem())
+	}
+	return true
 }
 
 // isExternalPkg returns true if the given package is not the current package.
@@ -601,7 +624,6 @@ func (b *assignmentBuilder) sliceToSlice(lhs, rhs bmodel.Node) (a gmodel.Assignm
 	if lhsElem == nil || rhsElem == nil {
 		return
 	}
-
 	if types.AssignableTo(rhsElem, lhsElem) {
 		if util.IsBasicType(rhsElem) && types.Identical(rhsElem, lhsElem) {
 			a = gmodel.SliceAssignment{
